@@ -197,6 +197,66 @@ def failing_allof_binds(desc):
 
 
 @rechecked
+def check_shared(seed, case):
+    """
+    Constraint objects are immutable values: building further constraints FROM an existing constraint object (as `c & x`, `c | y`, AllOf / AnyOf
+    nodes sharing it) and querying them must not change what the shared object - or any constraint built from it later - accepts or reports as bases.
+    """
+    from xdsl.irdl import AllOf, AnyOf, BaseAttr, EqAttrConstraint
+    from xdsl.utils.exceptions import PyRDLError
+
+    rnd = random.Random(f"shared/{seed}/{case}")
+    attrs = pool()
+    inputs = {"seed": seed, "case": case}
+    # a variable-free leaf or small tree, shared by several composites
+    d = gen_desc(rnd, 2, attrs, var_names=())
+    try:
+        c = build(d, attrs)
+    except PyRDLError:
+        return None
+    b0 = c.get_bases()
+    bases0 = None if b0 is None else frozenset(b0)
+    acc0 = [c.verifies(a) for a in attrs]
+    others = []
+    for _ in range(rnd.randrange(1, 4)):
+        od = gen_desc(rnd, 1, attrs, var_names=())
+        try:
+            others.append((od, build(od, attrs)))
+        except PyRDLError:
+            continue
+    composites = []
+    for od, o in others:
+        for mk in (lambda: AllOf((c, o)), lambda: AllOf((o, c)), lambda: c & o, lambda: AnyOf((c, o)), lambda: AnyOf((o, c)), lambda: c | o):
+            try:
+                k = mk()
+                k.get_bases()
+                composites.append(k)
+            except (PyRDLError, Exception):  # noqa: BLE001  (overlapping alternatives etc.: such composites are simply not built)
+                continue
+    b1 = c.get_bases()
+    bases1 = None if b1 is None else frozenset(b1)
+    if bases1 != bases0:
+        return {"key": "C09/shared", "what": f"get_bases() of a constraint changed after other constraints were built from it: {sorted(x.__name__ for x in bases0 or ())} -> {sorted(x.__name__ for x in bases1 or ())}",
+                "constraint": repr(d), "inputs": inputs}
+    acc1 = [c.verifies(a) for a in attrs]
+    if acc1 != acc0:
+        return {"key": "C09/shared", "what": "a constraint accepts different attributes after other constraints were built from it", "constraint": repr(d), "inputs": inputs}
+    # a union built NOW from the shared object accepts what the shared object accepts
+    for a in attrs:
+        if not acc0[attrs.index(a)]:
+            continue
+        for od, o in others:
+            try:
+                u = AnyOf((c, o))
+            except PyRDLError:
+                continue
+            if not u.verifies(a):
+                return {"key": "C09/shared", "what": f"a union with alternative {d!r} rejects {a}, which that alternative accepts (after building {len(composites)} other constraints from the same object)",
+                        "constraint": repr(("anyof", (d, od))), "inputs": inputs}
+    return None
+
+
+@rechecked
 def check_tree(seed, case):
     from xdsl.irdl import AnyOf, ConstraintContext
     from xdsl.utils.exceptions import PyRDLError, VerifyException
@@ -322,6 +382,12 @@ def explore(tier, seed):
         fails.append(f)
     for case in range(n):
         cases += 1
+        f = check_shared(seed, case)
+        if f and (f["key"], None) not in seen:
+            seen.add((f["key"], None))
+            fails.append(f)
+    for case in range(n):
+        cases += 1
         f = check_tree(seed, case)
         k = (f["key"], f["inputs"].get("allof_takes_the_inference_of_one_conjunct_that_a_sibling_rejects")) if f else None
         if f and k not in seen:
@@ -329,7 +395,8 @@ def explore(tier, seed):
             fails.append(f)
     return {"cases": cases, "failures": fails, "exhaustive": False, "nontrivial": cases,
             "bound": f"{n} seeded constraint trees (depth <= 3; any/eq/set/base/param/var/allof/anyof) x 23 attribute values (falsy values included), second attribute in the "
-                     "context of a first, inference under 3 variable bindings, AnyOf.get / | / & of 2-4 variable-free alternatives; 19 type hints x 26 attributes vs isa"}
+                     "context of a first, inference under 3 variable bindings, AnyOf.get / | / & of 2-4 variable-free alternatives; 19 type hints x 26 attributes vs isa; "
+                     f"{n} shared-object scenarios (composites built from one constraint object must not change its bases or acceptance)"}
 
 
 NATIVE = [("constraints-vs-reference", explore)]
